@@ -384,7 +384,8 @@ def printable (cfg : Cfg) (ch : Nat) : Bool :=
 
 def wfTextObs (cfg : Cfg) (t : TextObs) (cap : Nat) : Bool :=
   t.cells.length == cap && t.term == 0 &&
-  t.cells.all (fun c => c.lvl ≤ 10 && (c.lvl != 10 || c.ch == 0x20) && (c.ch == 0 || printable cfg c.ch)) &&
+  t.cells.all (fun c => c.lvl ≤ 10 && (c.lvl != 10 || c.ch == 0x20) &&
+    (c.ch == 0 || c.lvl == 10 || printable cfg c.ch)) &&
   t.av == getAvailable t.cells && t.len == getLength t.cells
 
 def chkC16 (cfg : Cfg) (r : StepRec) : Bool :=
